@@ -531,6 +531,33 @@ func runC05(e *core.Env) error {
 					}
 				}
 				e.Add(core.Case{Impl: verdict, Spec: "ok", Class: "C05.dashboard_no_dependencies", Key: "c05-dashboard", Nontrivial: true, Tags: []string{"dashboard-dependencies"}})
+				// a stored integration whose document DOES list its dependencies (what POST /save-integration keeps when
+				// the client sends them), the reference sitting on a block field: it is loaded with them
+				gc := gIg{name: "igc", enabled: true, srcs: []string{"src1"}, refs: [][3]uint64{{0, 1, 0}}}
+				cjc := gc.json()
+				cjc = strings.Replace(cjc, `"name":"block_time"`, `"name":"block_time","filter_op":"contains","filter_ref":{"integration":"iga","column":"ev_to"}`, 1)
+				cjc = strings.Replace(cjc, `"name":"igc"`, `"Dependencies":["iga"],"name":"igc"`, 1)
+				if strings.Contains(cjc, `"Dependencies":["iga"]`) {
+					pg2.InsertRow("shovel.integrations", map[string]fakepg.Value{"name": "igc", "conf": fakepg.JSON(cjc)})
+					verdictC := "ok"
+					if ts, lerr := shovel.VerifLoadTasks(w.ctx, pool2, conf); lerr != nil {
+						verdictC = "load: " + lerr.Error()
+					} else {
+						found := false
+						for _, t := range ts {
+							if t.IG == "igc" {
+								found = true
+								if strings.Join(t.Dependencies, ",") != "iga" {
+									verdictC = fmt.Sprintf("igc is stored with Dependencies [iga] (its reference sits on a block field) and is loaded with %v", t.Dependencies)
+								}
+							}
+						}
+						if !found {
+							verdictC = "the stored integration igc is not loaded"
+						}
+					}
+					e.Add(core.Case{Impl: verdictC, Spec: "ok", Key: "c05-dashboard-listed", Nontrivial: true, Tags: []string{"dashboard-dependencies-listed"}})
+				}
 				// the same name declared in the file AND stored through the dashboard: the file's (validated)
 				// declaration is the one that runs, with its dependencies
 				conf2 := config.Root{Sources: conf.Sources, Integrations: []config.Integration{
